@@ -92,13 +92,13 @@ MC_ALPHABET = ["0", "1", "2", ":", "i", "l", "d", "e", "-", "a"]
 
 
 def write_cfg(pid, name, maxlen, invariants=('ReEncodeInv',)):
-    path = os.path.join(SPEC, name)
+    path = os.path.join(outdir(pid), name)
     with open(path, 'w') as f:
         f.write('SPECIFICATION Spec\nCONSTANTS\n  Alphabet <- MCAlphabet\n  Code <- MCCode\n  MaxLen = %d\n' % maxlen)
         for inv in invariants:
             f.write('INVARIANT %s\n' % inv)
         f.write('CHECK_DEADLOCK FALSE\n')
-    return name
+    return path
 
 
 def enumerate_automaton(pid, maxlen, workers=8):
@@ -282,3 +282,160 @@ def trace_validate(pid, V, rng, n):
                      'ref_state': {'mode': rec['mode'], 'stack': rec['stack']}},
                     known_matcher)
     return {'docs': len(docs), 'steps': steps, 'accepted': len(docs) - len(bad)}
+
+
+# ==========================================================================================
+# C15
+def gen_values(pid, tag, ints, strs, maxtok, maxdepth=3, workers=8, maxtop=None):
+    d = outdir(pid)
+    cfg = os.path.join(d, 'gen_%s.cfg' % tag)
+    with open(cfg, 'w') as f:
+        f.write('SPECIFICATION GSpec\nCONSTANTS\n  Alphabet <- ByteSymbols\n  Code <- ByteCode\n  MaxLen = 0\n'
+                '  IntLeaves <- %s\n  StrLeaves <- %s\n  MaxTokens = %d\n  MaxDepth = %d\n  MaxTop = %d\n'
+                'INVARIANT EncNonEmpty\nCHECK_DEADLOCK FALSE\n' % (ints, strs, maxtok, maxdepth, maxtop or maxtok))
+    dump = os.path.join(d, 'gen_%s.dump' % tag)
+    res = run_tlc('MC_BValueGen', cfg, pid, workers=workers, dump=dump, timeout=1500, tag='gen_' + tag)
+    if res['violation']:
+        raise ToolError('design-level invariant violated in BValueGen.tla:\n' + res['stdout'][-2000:])
+    return res, dump
+
+
+def rand_tree(rng, depth):
+    k = rng.randrange(4 if depth > 0 else 2)
+    if k == 0:
+        return rng.choice([0, 1, -1, 2**63 - 1, -2**63, rng.randrange(-2**63, 2**63), rng.randrange(-1000, 1000)])
+    if k == 1:
+        return bytes(rng.choice(b':e0123456789ild-a\x00\xff\x80 ') for _ in range(rng.choice([0, 1, 1, 2, 3, 11])))
+    if k == 2:
+        return [rand_tree(rng, depth - 1) for _ in range(rng.randrange(4))]
+    return {bytes(rng.choice(b'ab\x00\xff:e1') for _ in range(rng.randrange(4))): rand_tree(rng, depth - 1)
+            for _ in range(rng.randrange(4))}
+
+
+def py2json(v):
+    if isinstance(v, int):
+        return {'i': str(v)}
+    if isinstance(v, bytes):
+        return {'s': v.hex()}
+    if isinstance(v, list):
+        return {'l': [py2json(x) for x in v]}
+    return {'d': [[k.hex(), py2json(x)] for k, x in v.items()]}
+
+
+def json2specval(j):
+    """executor JSON -> Bencode.tla value (dictionary items as k1,v1,k2,v2,...)"""
+    if 'i' in j:
+        s = j['i']
+        return {'t': 'i', 'neg': s.startswith('-'), 'd': list(s.lstrip('-'))}
+    if 's' in j:
+        return {'t': 's', 'v': [byte2sym(b) for b in bytes.fromhex(j['s'])]}
+    if 'l' in j:
+        return {'t': 'l', 'v': [json2specval(x) for x in j['l']]}
+    its = []
+    for k, v in j['d']:
+        its += [{'t': 's', 'v': [byte2sym(b) for b in bytes.fromhex(k)]}, json2specval(v)]
+    return {'t': 'd', 'v': its}
+
+
+def check_c15(tier, replay=None):
+    pid = 'C15'
+    V = Verdict(pid, tier)
+    rng = random.Random(seed())
+    if replay:
+        case = json.load(open(replay))['replay']
+        o = run_mbt([case['case']])[0]
+        log('replay: %s -> %s (expected %s)' % (json.dumps(case['case'])[:300], json.dumps(o)[:300], case.get('expect')))
+        bad = judge_c15(case['case'], case.get('expect'), o)
+        if bad:
+            print('VIOLATION property=%s replay=%s' % (pid, replay))
+            return 1
+        return 0
+    cases, expects = [], []
+    states = transitions = 0
+    # (tag, int leaves, string leaves, max tokens, max nesting, max top-level values)
+    plans = [('full3', 'MCInts', 'MCStrs', 3, 3, 3), ('small4', 'MCIntsSmall', 'MCStrsSmall', 4, 3, 4),
+             ('dict6', 'MCIntsOne', 'MCStrsKeys', 6, 1, 1)] if tier == 'quick' else \
+            [('full4', 'MCInts', 'MCStrs', 4, 3, 4), ('small5', 'MCIntsSmall', 'MCStrsSmall', 5, 3, 5),
+             ('dict8', 'MCIntsOne', 'MCStrsKeys', 8, 1, 1), ('dict7n', 'MCIntsOne', 'MCStrsKeys', 7, 2, 1)]
+    for tag, ints, strs, mt, md, mtop in plans:
+        res, dump = gen_values(pid, tag, ints, strs, mt, maxdepth=md, maxtop=mtop, workers=8 if tier == 'quick' else 12)
+        states += res['distinct']
+        transitions += res['generated']
+        for st in tlaval.iter_dump(dump):
+            if len(st['gstack']) == 1 and st['gstack'][0]['items']:
+                vals = [val2json(v) for v in st['gstack'][0]['items']]
+                cases.append({'op': 'bencode', 'values': vals})
+                expects.append(syms2hex(st['enc']))
+        os.remove(dump)
+    n_gen = len(cases)
+    # canonical documents: accepting canonical states of the recogniser must re-encode to themselves
+    maxlen = 6 if tier == 'quick' else 7
+    res2, dump2 = enumerate_automaton(pid, maxlen)
+    states += res2['distinct']
+    transitions += res2['generated']
+    for st in tlaval.iter_dump(dump2):
+        if st['mode'] == 'val' and len(st['stack']) == 1 and not st['nc']:
+            h = syms2hex(st['inp'])
+            cases.append({'op': 'reencode', 'input': h})
+            expects.append(h)
+    os.remove(dump2)
+    obs = run_mbt(cases)
+    agree = 0
+    for c, e, o in zip(cases, expects, obs):
+        bad = judge_c15(c, e, o)
+        if bad:
+            V.violation(bad, {'case': c, 'expect': e, 'observed': o}, None)
+        else:
+            agree += 1
+    # implementation -> spec: random deep trees, encoder output validated by TLC (EncTrace.tla)
+    n = 200 if tier == 'quick' else 3000
+    trees = [[rand_tree(rng, rng.randrange(1, 8)) for _ in range(rng.randrange(1, 3))] for _ in range(n)]
+    tcases = [{'op': 'bencode', 'values': [py2json(v) for v in t]} for t in trees]
+    tobs = run_mbt(tcases)
+    tpath = os.path.join(outdir(pid), 'enc_trace.ndjson')
+    with open(tpath, 'w') as f:
+        for c, o in zip(tcases, tobs):
+            enc = bytes.fromhex(o.get('enc', '')) if 'enc' in o else b''
+            f.write(json.dumps({'vals': [json2specval(v) for v in c['values']],
+                                'enc': [byte2sym(b) for b in enc],
+                                'back': bool('enc' in o and o['dec'].get('ok') and o['dec'].get('same'))}) + '\n')
+    res3 = run_tlc('EncTrace', 'EncTrace.cfg', pid, workers=1, timeout=1200, env_extra={'TRACE': tpath},
+                   java_opts=['-Xss1g', '-Dtlc2.tool.queue.IStateQueue=StateDeque'], xmx='4g')
+    r = tlaval.find_printed(res3['stdout'], 'TRACE_RESULT')
+    b = tlaval.find_printed(res3['stdout'], 'TRACE_BAD')
+    if not r or r[-1][1] != n:
+        log(res3['stdout'][-2000:])
+        raise ToolError('EncTrace did not consume the whole trace')
+    for l in b[-1][1]:
+        V.violation('TLC (EncTrace) rejects the recorded encoder run: values %s -> %s' % (json.dumps(tcases[l - 1]['values'])[:200], json.dumps(tobs[l - 1])[:200]),
+                    {'case': tcases[l - 1], 'expect': None, 'observed': tobs[l - 1], 'source': 'trace'}, None)
+    cov = {
+        'states': states, 'transitions': transitions,
+        'traces_validated_against_impl': agree + n - len(b[-1][1]),
+        'samples': [{'case': c, 'expected_encoding_hex': e, 'observed': o} for c, e, o in list(zip(cases, expects, obs))[:: max(1, len(cases) // 5)]][:5],
+        'exhaustive': True, 'evaluations': len(cases) + n, 'generated_value_cases': n_gen,
+        'canonical_documents': len(cases) - n_gen, 'random_deep_trees_validated_by_tlc': n,
+        'rule': 'value trees built token by token by BValueGen.tla (all trees up to the token bound over boundary leaves) with the '
+                'canonical encoding computed by TLC; BEncoder output must equal it byte for byte and BDecoder must return the values; '
+                'every canonical accepted document of the recogniser (Bencode.tla) must re-encode to itself; random deep trees are '
+                'encoded by rdest and the recorded output validated by TLC',
+    }
+    return V.finish(cov, ['values between the boundary leaves are sampled, not enumerated',
+                          'BValue dictionaries cannot hold duplicate keys, so only unique-key dictionaries are generated'])
+
+
+def judge_c15(c, expect, o):
+    if 'panic' in o or 'crash' in o:
+        return 'codec panicked (%s) on %s' % (o.get('panic') or o.get('crash'), json.dumps(c)[:200])
+    if c['op'] == 'bencode':
+        if expect is not None and o['enc'] != expect:
+            return 'encoder output %r differs from the canonical encoding %r' % (bytes.fromhex(o['enc']), bytes.fromhex(expect))
+        d = o['dec']
+        if 'panic' in d or not d.get('ok') or not d.get('same'):
+            return 'decoding the encoding of %s does not return the value: %s' % (json.dumps(c['values'])[:200], json.dumps(d)[:200])
+        return None
+    if not o.get('ok'):
+        return 'canonical document %r rejected: %s' % (bytes.fromhex(c['input']), o.get('err'))
+    if o['enc'] != expect:
+        return 're-encoding canonical document %r gives %r' % (bytes.fromhex(c['input']), bytes.fromhex(o['enc']))
+    return None
